@@ -119,9 +119,12 @@ func (u *isoUnder) Execute(ctx context.Context) error {
 
 // isoCall makes one call and classifies it: "o" "e" "p" = the delegate ran and this is what came back,
 // "r" = refused with an error, anything else is a violation description.
-func isoCall(j quartz.Job) (string, *isoRec) {
+func isoCall(j quartz.Job) (string, *isoRec) { return isoCallCtx(j, context.Background()) }
+
+// isoCallCtx: the same with a parent context of the caller's choice (already ended, or ended while the execution runs)
+func isoCallCtx(j quartz.Job, parent context.Context) (string, *isoRec) {
 	rec := &isoRec{}
-	ctx := context.WithValue(context.Background(), isoRecKey{}, rec)
+	ctx := context.WithValue(parent, isoRecKey{}, rec)
 	var err error
 	var pan any
 	func() {
@@ -278,10 +281,29 @@ func isolatedRun(args []string) int {
 
 	// ---- handshake: hold an execution inside the delegate
 	for i := 0; i < *hsN; i++ {
+		if i%3 == 2 {
+			// a call whose context has already ended (a stopping scheduler makes such calls): whatever it does, it must leave the
+			// gate open — the held call below is made "with nothing running"
+			dead, cancelDead := context.WithCancel(context.Background())
+			cancelDead()
+			c, _ := isoCallCtx(j, dead)
+			evaluations++
+			dist["handshake"]["call with an ended context: "+map[bool]string{true: "refused", false: "ran"}[c == "r"]]++
+		}
 		h := &isoHold{entered: make(chan struct{}), release: make(chan byte)}
 		u.hold.Store(h)
 		res := make(chan string, 1)
-		go func() { c, _ := isoCall(j); res <- c }()
+		heldCtx, cancelHeld := context.WithCancel(context.Background())
+		go func() { c, _ := isoCallCtx(j, heldCtx); res <- c }()
+		if i%3 == 1 {
+			// the context of the execution in progress ends while it is still running (Stop during a slow job): the execution is
+			// still in progress, the calls below must still be refused
+			defer cancelHeld()
+			go func() { time.Sleep(200 * time.Microsecond); cancelHeld() }()
+			dist["handshake"]["context of the held execution cancelled meanwhile"]++
+		} else {
+			defer cancelHeld()
+		}
 		select {
 		case <-h.entered:
 		case c := <-res:
@@ -294,6 +316,9 @@ func isolatedRun(args []string) int {
 			continue
 		}
 		u.hold.Store(nil)
+		if i%3 == 1 {
+			time.Sleep(400 * time.Microsecond) // the cancellation above has happened
+		}
 		// an execution is in progress right now: every call must be refused without reaching the delegate
 		k := 1 + r.Intn(4)
 		for q := 0; q < k; q++ {
